@@ -1394,9 +1394,14 @@ def scaled_unit_case(ctx, g, rng):
     from thejoker.samples import JokerSamples
     REL = "round trip of a column in a scaled unit (unit and physical values)"
     name, base, scale = [("P", u.day, 365.2422), ("omega", u.rad, 2 * math.pi), ("K", u.km / u.s, 299792.458),
-                         ("P", u.day, 365.25), ("s", u.m / u.s, 1000.0)][g["index"] % 5]
-    exact_in_string = float(f"{scale:.6g}") == scale
-    un = u.Unit(scale * base)
+                         ("P", u.day, 365.25), ("s", u.m / u.s, 1000.0), ("K", u.km / u.s, None)][g["index"] % 6]
+    if scale is None:
+        # a unit outside astropy's default registry (imperial: miles per hour): written as the string 'mi / h', which does not
+        # parse back unless the reader enables the imperial units
+        un, scale, exact_in_string = u.imperial.mi / u.h, float((u.imperial.mi / u.h).to(u.km / u.s)), False
+    else:
+        exact_in_string = float(f"{scale:.6g}") == scale
+        un = u.Unit(scale * base)
     n = int(rng.integers(1, 6))
     vals = rng.uniform(0.5, 3.0, n)
     s = JokerSamples()
@@ -1407,12 +1412,23 @@ def scaled_unit_case(ctx, g, rng):
     try:
         fn = os.path.join(work, "scaled.hdf5")
         s.write(fn)
-        r = JokerSamples.read(fn)
-        got = np.asarray(r[name].to_value(base), dtype=float)
         want = np.asarray(s[name].to_value(base), dtype=float)
+        try:
+            r = JokerSamples.read(fn)
+            got = np.asarray(r[name].to_value(base), dtype=float)
+            read_err = None
+        except Exception as e_:  # noqa: BLE001
+            r, got, read_err = None, None, f"{type(e_).__name__}: {str(e_)[:160]}"
     finally:
         shutil.rmtree(work, ignore_errors=True)
-    ctx.evaluated(REL, (g["index"] % 5,) if not exact_in_string else None)
+    if read_err is not None:
+        ctx.evaluated(REL, (g["index"] % 6, "unreadable"))
+        ctx.count("scaled-unit:file written without complaint cannot be read back")
+        ctx.violation(REL, g, dict(column=name, unit=str(un), values=vals.tolist()), dict(read_raised=read_err), dict(values_in_base_unit=want.tolist()),
+                      "a table that write() stored without complaint must be readable: the unit's string form does not parse back ("
+                      + read_err + ")", tags=dict(op="read", what="scaled-unit-precision", fmt="hdf5"))
+        return
+    ctx.evaluated(REL, (g["index"] % 6,) if not exact_in_string else None)
     ctx.count("scaled-unit:" + ("scale survives a 6-digit string" if exact_in_string else "scale needs more than 6 digits"))
     rel_err = float(np.max(np.abs(got - want) / np.abs(want)))
     if rel_err > 4 * 2.220446049250313e-16:
@@ -1431,7 +1447,7 @@ def plan(ctx):
     else:
         n = dict(hist=170, histlong=0, batch=30, batchlong=0, fits=30, batchhuge=2, chain=40)
     return ([(k, i) for k in ("hist", "histlong", "batch", "batchlong", "fits", "batchhuge", "chain") for i in range(n[k])]
-            + [("scaledunit", i) for i in range(50 if ctx.thorough else 5)])
+            + [("scaledunit", i) for i in range(60 if ctx.thorough else 6)])
 
 
 def run_case(ctx, g):
